@@ -72,7 +72,9 @@ def dump(n):
         if isinstance(n, (list, tuple)):
             return 'L(-,-,[' + _items(n) + '])'
         return 'L(%s,%s,[%s])' % (show_opt(n.pos), show_opt(n.pos_end), _items(n.nodelist))
-    hd = '%s(%d,%d,%s' % (k, n.pos, n.pos_end, _show_mode(_mode(n)))
+    # a node without a span is dumped with '-' (never produced by the model: it shows as a disagreement / violation)
+    hd = '%s(%s,%s,%s' % (k, '-' if n.pos is None else '%d' % n.pos, '-' if n.pos_end is None else '%d' % n.pos_end,
+                          _show_mode(_mode(n)))
     if k == 'C':
         return hd + ',' + show_str(n.chars) + ')'
     if k == '#':
